@@ -4,7 +4,8 @@ stdin : {"cases": [ {"parsers": [decl, ...], "ops": [op, ...]}, ... ]}
 stdout: last line = JSON list, one entry per case: {"steps": [ {"out":…, "fresh":…, "state":…}, … ], "init": state}
 
 Process structure (so that "fresh" really is fresh):
-  * this process (the zygote) imports jsonargparse and never builds or calls a parser;
+  * this process (the zygote) imports jsonargparse and never builds or calls a parser (the warm-up sequence runs in
+    the history children, never here);
   * every history runs in its own forked child (pristine interpreter state, pristine ContextVars);
   * the reference outcome of every step is computed in its own forked child of the zygote on a parser built there
     (so neither ContextVars nor class-level / module-level state touched by the history can reach it).
@@ -482,6 +483,7 @@ def run_history(case):
         return f
 
     def hist():
+        warm_up()
         built = [build(d, i) for i, d in enumerate(decls)]
         tr = Tracker(built, untok)
         init = tr.state()
@@ -506,7 +508,9 @@ def run_history(case):
 def warm_up():
     """One fixed call sequence on a throwaway parser, in a copied context, so that lazily initialised module state that
     does not depend on what is parsed (PyYAML loader/dumper resolver tables copied into the jsonargparse subclasses
-    on first use, the docstring-style default of _optionals) exists before the baseline snapshot is taken."""
+    on first use, the docstring-style default of _optionals) exists before the baseline snapshot is taken.
+    It runs in the HISTORY child only (before the parsers are built): the fresh references never see it, so whatever
+    it leaves behind that changes an answer shows up as a difference between re-used and fresh."""
 
     def f():
         p = ArgumentParser(exit_on_error=False)
@@ -521,7 +525,6 @@ def warm_up():
 
 
 def main():
-    warm_up()
     cases = json.load(sys.stdin)["cases"]
     print(json.dumps([run_history(c) for c in cases]))
 
